@@ -5,6 +5,9 @@
     PYTHONHASHSEED values in subprocesses through the public @script decorator.
 (b) histories as arbitrary pre-state: per-match fields of rule singletons (found by an AST pass each run)
     are havocked with symbolic values before rewrite() runs; bytes must equal the fresh-object run.
+(d) histories of whole transformations: a symbolic sequence of models from a table that repeats operators at several opsets /
+    dtypes / attribute forms goes through optimize / convert_version / proto2python, then a symbolic target; the target's bytes
+    must equal the fresh-process result (baselines from subprocesses).  Indices are concretised by comparison forks.
 (c) frozen globals (concrete, labelled): to_model_proto()^n identical, function_ir unchanged, protos
     independent of post-decoration rebinding of referenced globals; eager calls probed for the same.
 """
@@ -90,6 +93,21 @@ def main(tier: str, only=None) -> int:
         mods.insert(0, "vp.harness.c14_order")
     else:
         run.coverage["order_obligations"] = "skipped: the recorded finding (set order in converter) is live; witness replayed with real PYTHONHASHSEED values"
+    # (d) fresh-process baselines for the history harness (computed before any history runs; workers read the file)
+    import json
+    from vp.harness import c14_history as HH
+    base = HH.compute_baselines(common.jobs())
+    failed = {k: v for k, v in base.items() if v.startswith("baseline failed")}
+    if failed:
+        run.harness_error(f"c14.history baselines failed: {list(failed.items())[:2]}")
+    else:
+        bp = common.WORK / "C14"
+        bp.mkdir(parents=True, exist_ok=True)
+        (bp / "history_base.json").write_text(json.dumps(base))
+        os.environ["VP_C14_BASE"] = str(bp / "history_base.json")
+        run.coverage["history_table"] = {"models": [f"{k}@{o}" for k, o in HH.TABLE], "transformations": HH.TRANSFORMS,
+                                         "baselines": len(base), "baseline_refusals": sum(v.startswith("raises") for v in base.values())}
+        mods.append("vp.harness.c14_history")
     xh.run_obligations(run, mods, tier, only)
     if seed_dependent and not kf_order:
         # make sure a violation is reported even if CrossHair obligations were inconclusive
@@ -112,5 +130,7 @@ def main(tier: str, only=None) -> int:
             run.violation(path, f"eager call depends on post-decoration rebinding of a global: {g['eager_before']} -> {g['eager_after_rebinding']}")
     run.assumptions += ["set iteration order is the only cross-process nondeterminism modelled; <=4 schedule choices per translation",
                         "histories are modelled as arbitrary values of the per-match fields of rule singletons",
+                        "(d): histories of length 1 (quick) / 2 (thorough, optimize) over the stated 30-model table; other retained state "
+                        "(e.g. the matcher's last MatchResult on rule objects) is exercised only through these histories",
                         "part (c) is a concrete probe"]
     return run.finish()
